@@ -1210,6 +1210,7 @@ class PhasedVcfWriter(VcfAugmenter):
                 continue
 
             # Set phase tag for all target samples
+            any_phased = False
             for sample in sample_superreads:
                 call: VariantRecordSample = record.samples[sample]
                 components = sample_components[sample]
@@ -1258,9 +1259,20 @@ class PhasedVcfWriter(VcfAugmenter):
                         else None
                     )
                     self._set_phasing_tags(call, components[pos], phases[pos], haploid_component)
+                    any_phased = True
                 else:
                     # Unphased
                     call[self.tag] = None
+            if self.tag == "HP" and not any_phased:
+                # pysam cannot represent a string-valued FORMAT field that is missing in all
+                # samples (it writes NUL bytes that htslib refuses to parse), so drop the key
+                # unless a sample that is not being phased carries a value
+                if not any(
+                    sample not in sample_superreads
+                    and call.get("HP") not in (None, (None,), (".",))
+                    for sample, call in record.samples.items()
+                ):
+                    del record.format["HP"]
             prev_pos = pos
         return genotype_changes
 
